@@ -129,6 +129,14 @@ func (rw *refWeb) respond(req *http.Request, data []byte, total int64, lo int64,
 	return MakeResponse(status, hdr, body, cl), nil
 }
 
+// noteHoldable: data for these torrent bytes was served (a 200 reply may
+// even carry the whole file), so the system may come to hold the pieces.
+func (rw *refWeb) noteHoldable(lo, hi int64) {
+	for i := 0; i < rw.spec.Geo.NPieces; i++ {
+		rw.w.noteHoldable(rw.spec, i)
+	}
+}
+
 func (rw *refWeb) behaviour() int {
 	if !rw.hostile {
 		return 0
@@ -154,6 +162,7 @@ func (rw *refWeb) getright(w *World, req *http.Request, rec *HTTPRec) (*http.Res
 		return MakeResponse(416, nil, w.Body(req.Context(), nil), 0), nil
 	}
 	r.tlo, r.thi = f.Offset+r.lo, f.Offset+r.hi+1
+	rw.noteHoldable(r.tlo, r.thi)
 	b := rw.behaviour()
 	r.behaviour = b
 	rw.reqs = append(rw.reqs, r)
@@ -189,6 +198,7 @@ func (rw *refWeb) hoffman(w *World, req *http.Request, rec *HTTPRec) (*http.Resp
 	}
 	base := r.piece * g.PieceSize
 	r.tlo, r.thi = base+a, base+b+1
+	rw.noteHoldable(r.tlo, r.thi)
 	bh := rw.behaviour()
 	if bh >= 1 && bh <= 5 {
 		bh = 0 // the Content-Range behaviours do not apply
